@@ -34,6 +34,26 @@ class Finding:
     known: Optional[str] = None   # text of the matching open: line
 
 
+class _Part:
+    def __init__(self, ctx):
+        self.ctx = ctx
+
+    def __enter__(self):
+        return self
+
+    def __exit__(self, et, ev, tb):
+        if et is None:
+            return False
+        if issubclass(et, AnalysisError):
+            self.ctx.deferred.append(ev)
+            return True
+        if issubclass(et, Exception):
+            text = ''.join(traceback.format_exception(et, ev, tb))
+            self.ctx.deferred.append(AnalysisError('internal', self.ctx.prop, 'internal exception\n' + text))
+            return True
+        return False
+
+
 class Ctx:
     """Collects obligations for one property check."""
 
@@ -49,6 +69,13 @@ class Ctx:
         self.floors: Dict[str, int] = {}       # rule id -> minimum instance count
         self.trusted: List[str] = []
         self.extra: Dict[str, Any] = {}
+        self.deferred: List[AnalysisError] = []   # rules that could not complete (reported after the others ran)
+
+    def part(self):
+        """`with ctx.part(): rule(ctx)` - a rule that cannot complete must not keep the other rules from
+        running: its AnalysisError is kept and raised after all rules ran (a definite new violation found by
+        another rule is reported first; with none, the run ends as ANALYSIS-ERROR, exit 2)."""
+        return _Part(self)
 
     # -- declaring rules -----------------------------------------------------
     def rule(self, rid: str, text: str, floor: int = 1) -> None:
@@ -116,6 +143,8 @@ def run_check(prop: str, fn: Callable[[Ctx], None], root: str, tier: str, seed: 
             return [o for o in ctx.obs if not o.ok and o.key not in known_keys]
         try:
             fn(ctx)
+            if ctx.deferred:
+                raise ctx.deferred[0]
         except AnalysisError as e:
             # a rule could not complete; if definite NEW violations were already established, report those
             if not new_failures():
